@@ -64,6 +64,28 @@ Theorem c12_stale_cannot_start :
 Proof. exact start_call_stale. Qed.
 Print Assumptions c12_stale_cannot_start.
 
+(* "Rejected without side effects", for every reason of rejection (already running, finished, stale, invalid,
+   unknown id): a sequential Start that returns an error leaves the state literally unchanged; if the plan is
+   not executing, a Wait after it does not block and answers exactly what it would have answered before, and
+   a second Start gets the same answer. *)
+Theorem c12_rejected_start_no_side_effect :
+  forall ms s id s' r, reach (fixed ms) s -> inprog s = [] -> engines (get s id) = [] ->
+  start_call (fixed ms) s id = Some (s', r) -> r <> ROk ->
+  s' = s
+  /\ (forall c, step (fixed ms) s' (LWait id c) = Some (s', read_res (fixed ms) s id))
+  /\ read_res (fixed ms) s id <> RCanceled
+  /\ start_call (fixed ms) s' id = Some (s', r).
+Proof. exact rejected_start_no_side_effect. Qed.
+Print Assumptions c12_rejected_start_no_side_effect.
+
+(* ... in any interleaving, the steps of a Start before its launch touch no plan, the id supply or the clock *)
+Theorem c12_start_steps_keep_plans :
+  forall ms s l s' r,
+  (exists id, l = LStartEnter id) \/ (exists k, l = LStartCheck k) \/ (exists k, l = LStartRead k) ->
+  step (fixed ms) s l = Some (s', r) -> plans s' = plans s /\ next s' = next s /\ now s' = now s.
+Proof. exact start_steps_keep_plans. Qed.
+Print Assumptions c12_start_steps_keep_plans.
+
 (* ... and the property is not met by rejecting everything: Start on a plan that validates and has no waiter
    returns nil and launches it - it had 0 executions, now has exactly 1. *)
 Theorem c12_startable_plan_starts_once :
